@@ -16,6 +16,93 @@ def raw_callee(ctx, method, default):
     return local[0] if len(local) == 1 else default
 
 
+def _traversal(ctx, se):
+    """how the data slice (param 1) is walked: returns dict(mode, head, loop (blocks), in_term
+    (the byte before the step), out_terms, writes) or (None, reason).  Modes: `for b in data`
+    (slice IterMut), `for i in 0..data.len()`, and `while let Some((b, tail)) =
+    mem::take(&mut rest).split_first_mut()` - each visits every element once, in order."""
+    body = se.body
+    data_root = ("deref", ("param", 1))
+    loops = util.for_loops(ctx, se)
+    be = cfg.back_edges(body)
+    if len(loops) == 1:
+        lp = loops[0]
+        head = lp["next_bb"]
+        loop = set()
+        for e in be:
+            l_ = cfg.natural_loop(body, e)
+            if head in l_:
+                loop |= l_
+        st_in = se.in_state.get(head, {})
+        src = strip(lp["init_call"][2][0]) if lp["init_call"] is not None else None
+        if strip(lp["init"] or ("?",)) == ("param", 1) and "slice::IterMut" in (lp["resolved"] or "") and lp["init_call"] is not None and lp["init_call"][1].endswith("for &'a mut [T]>::into_iter"):
+            elem_in = ("deref", lp["elem"])
+            writes = [(k, v) for k, v in se.assigns.items() if v[0] == elem_in or (v[0][0] == "deref" and strip(v[0][1]) == strip(lp["elem"]))]
+            return {"mode": "iter", "head": head, "loop": loop, "in_term": strip(elem_in), "out_terms": [w[1][1] for w in writes], "writes": writes, "what": lp["resolved"]}
+        if src is not None and src[0] == "agg" and src[2] == "std::ops::Range" and util.numnorm(src[4][0])[:2] == ("int", 0):
+            # index loop `for i in 0..data.len()`: element i is read and written exactly once
+            from ranges import strip_len
+
+            end = util.numnorm(src[4][1])
+            phi_data = st_in.get(data_root)
+            i_t = strip(lp["elem"])
+            if end[0] == "len" and strip_len(end) == ("param", 1) and phi_data is not None and phi_data[0] == "phi":
+                ins = se.phi_inputs[(phi_data[2], phi_data[3])]
+                steps = [v for p_, v in ins.items() if v != data_root]
+                if len(steps) == 1 and steps[0][0] == "upd" and steps[0][1] == phi_data and steps[0][2][0] == "i" and strip(steps[0][2][1]) == i_t:
+                    writes = [(k, v) for k, v in se.assigns.items() if v[0][0] == "index" and strip(v[0][2]) == i_t and v[0][1] == data_root]
+                    return {"mode": "index", "head": head, "loop": loop, "in_term": ("index", strip(phi_data), i_t), "out_terms": [steps[0][3]], "writes": writes, "what": "index loop"}
+        return None, "data is not traversed by a plain in-order loop over the whole slice (%s)" % lp["resolved"]
+    if len(loops) == 0 and len(be) == 1:
+        # while let Some((first, tail)) = mem::take(&mut rest).split_first_mut() { ..; rest = tail; }
+        tail_bb, head = be[0]
+        loop = cfg.natural_loop(body, be[0])
+        sf = [(bb, i) for bb, i in se.term_info.items() if bb in loop and i.get("k") == "call" and i["name"] == "core::slice::<impl [T]>::split_first_mut"]
+        if len(sf) == 1:
+            bb, info = sf[0]
+            old = se.call_old.get((info["site"], 0))
+            la = info["locargs"][0]
+            # the receiver is the value taken out of the loop-carried `rest`
+            rest_phi = None
+            if la[0] == "ref" and la[1][0] == "deref" and la[1][1][0] == "phi":
+                rest_phi = la[1][1]     # split_first_mut(&mut *taken) with taken = the loop-carried slice
+            sw = se.term_info.get(body.blocks[bb]["term"]["target"], {})
+            T = info["term"]
+            payload = ("field", ("downcast", T, 1), 0)
+            if rest_phi is not None and rest_phi[0] == "phi" and rest_phi[2] == head and sw.get("k") == "switch" and strip(sw["discr"]) == ("discr", strip(T)):
+                tg = dict(sw["targets"])
+                succ = [t_ for t_ in list(tg.values()) + [sw["otherwise"]]]
+                some_t = tg.get(1)
+                others_exit = all(t_ not in loop or t_ == some_t for t_ in succ)
+                ins = se.phi_inputs.get((rest_phi[2], rest_phi[3]), {})
+                init = [v for p_, v in ins.items() if p_ not in loop]
+                back = [v for p_, v in ins.items() if p_ in loop]
+                tail_ok = len(back) == 1 and strip(back[0]) == strip(("field", payload, 1))
+                if some_t in loop and others_exit and len(init) == 1 and strip(init[0]) == ("param", 1) and tail_ok:
+                    elem = ("field", payload, 0)
+                    elem_in = ("deref", elem)
+                    writes = [(k, v) for k, v in se.assigns.items() if v[0][0] == "deref" and strip(v[0][1]) == strip(elem)]
+                    return {"mode": "split-first", "head": head, "loop": loop, "in_term": strip(elem_in), "out_terms": [w[1][1] for w in writes], "writes": writes, "what": "while let Some((first, tail)) = rest.split_first_mut()"}
+        return None, "the single loop is neither a for loop over the data nor a split_first_mut walk"
+    return None, "expected exactly one loop over the data, found %d" % len(loops)
+
+
+def _select(se, t, env):
+    """normal form of a two-way join value: ("ite", condition, value-if-true, value-if-false)"""
+    body = se.body
+    if t[0] != "phi" or t[1] != se.fn or (t[2], t[3]) not in se.phi_inputs:
+        return arith.norm(t, env)
+    ins = se.phi_inputs[(t[2], t[3])]
+    if len(ins) != 2:
+        return arith.norm(t, env)
+    for bb, d, f_t, t_t in util.bool_switches(se):
+        vt = [v for p, v in ins.items() if p == bb and t[2] == t_t or cfg.must_pass_edge(body, (bb, t_t), p)]
+        vf = [v for p, v in ins.items() if p == bb and t[2] == f_t or cfg.must_pass_edge(body, (bb, f_t), p)]
+        if len(vt) == 1 and len(vf) == 1 and vt[0] is not vf[0]:
+            return ("ite", arith.norm(d, env), arith.norm(vt[0], env), arith.norm(vf[0], env))
+    return arith.norm(t, env)
+
+
 def step_rule(ctx, rep, fn, direction, keylen):
     """fn(data: &mut [u8], key, index: &mut u8, previous_value: &mut u8).  Decides the per-byte
     transfer function, the state discipline inside the function and the traversal idiom."""
@@ -24,63 +111,44 @@ def step_rule(ctx, rep, fn, direction, keylen):
         rep.violation("step", fn, "anchor", "function not found")
         return
     body = se.body
-    loops = util.for_loops(ctx, se)
-    if len(loops) != 1:
-        rep.violation("traversal", fn, "loop", "expected exactly one loop over the data, found %d" % len(loops), body.loc())
+    tr = _traversal(ctx, se)
+    if isinstance(tr, tuple):
+        rep.violation("traversal", fn, "loop" if "found" in tr[1] else "in-order-whole-slice", tr[1], body.loc())
         return
-    lp = loops[0]
-    head = lp["next_bb"]
+    head, loop = tr["head"], tr["loop"]
     idx_root = ("deref", ("param", 3))
     prev_root = ("deref", ("param", 4))
-    data_root = ("deref", ("param", 1))
     kty = body.local_ty(2).peel_refs()
     klen = kty.len if kty.k == "array" else None
     rep.check(klen == keylen, "step", fn, "key-length", "key is [u8; %s]" % klen, "key array has length %s, expected %d" % (klen, keylen), body.loc())
-    st_in = se.in_state.get(head, {})
-    phi_idx = st_in.get(idx_root)
-    phi_prev = st_in.get(prev_root)
-    if not (phi_idx and phi_idx[0] == "phi" and phi_prev and phi_prev[0] == "phi"):
+    # loop-carried state: the values that enter the loop as *index / *previous_value (held in
+    # place or in local copies that are stored back after the loop)
+    def carried(root):
+        out = []
+        for (bb, key), ins in se.phi_inputs.items():
+            if bb != head:
+                continue
+            init = [v for p_, v in ins.items() if p_ not in loop]
+            if len(init) == 1 and init[0] == root:
+                out.append((("phi", se.fn, bb, key, ()), ins))
+        return out
+
+    ci, cp = carried(idx_root), carried(prev_root)
+    if len(ci) != 1 or len(cp) != 1:
         rep.violation("step", fn, "state", "index / previous value are not loop-carried state (no update per byte?)", body.loc())
         return
-    src = strip(lp["init_call"][2][0]) if lp["init_call"] is not None else None
-    mode = None
-    if strip(lp["init"] or ("?",)) == ("param", 1) and "slice::IterMut" in (lp["resolved"] or "") and lp["init_call"] is not None and lp["init_call"][1].endswith("for &'a mut [T]>::into_iter"):
-        mode = "iter"
-        elem_in = ("deref", lp["elem"])
-        writes = [(k, v) for k, v in se.assigns.items() if v[0] == elem_in or (v[0][0] == "deref" and strip(v[0][1]) == strip(lp["elem"]))]
-        in_term = strip(elem_in)
-        out_terms = [w[1][1] for w in writes]
-        wb = writes[0][0][0] if writes else None
-    elif src is not None and src[0] == "agg" and src[2] == "std::ops::Range" and util.numnorm(src[4][0])[:2] == ("int", 0):
-        # index loop `for i in 0..data.len()`: element i is read and written exactly once
-        from ranges import strip_len
-
-        end = util.numnorm(src[4][1])
-        phi_data = st_in.get(data_root)
-        i_t = strip(lp["elem"])
-        if end[0] == "len" and strip_len(end) == ("param", 1) and phi_data is not None and phi_data[0] == "phi":
-            ins = se.phi_inputs[(phi_data[2], phi_data[3])]
-            steps = [v for p_, v in ins.items() if v != data_root]
-            if len(steps) == 1 and steps[0][0] == "upd" and steps[0][1] == phi_data and steps[0][2][0] == "i" and strip(steps[0][2][1]) == i_t:
-                mode = "index"
-                in_term = ("index", strip(phi_data), i_t)
-                out_terms = [steps[0][3]]
-                writes = [(k, v) for k, v in se.assigns.items() if v[0][0] == "index" and strip(v[0][2]) == i_t and v[0][1] == data_root]
-                wb = writes[0][0][0] if writes else None
-    rep.check(mode is not None, "traversal", fn, "in-order-whole-slice", "plain in-order traversal of the whole slice, every element once (%s loop)" % mode, "data is not traversed by a plain in-order loop over the whole slice (%s)" % lp["resolved"], body.loc(lp["next_bb"]))
-    if mode is None:
-        return
+    (phi_idx, ins_idx), (phi_prev, ins_prev) = ci[0], cp[0]
+    rep.ok("traversal", fn, "in-order-whole-slice", "plain in-order traversal of the whole slice, every element once (%s)" % tr["mode"], body.loc(head))
+    in_term, out_terms, writes = tr["in_term"], tr["out_terms"], tr["writes"]
+    wb = writes[0][0][0] if writes else None
     env = {strip(phi_idx): "idx", strip(phi_prev): "prev", in_term: "in", ("param", 2): "key"}
-    ins_idx = se.phi_inputs[(phi_idx[2], phi_idx[3])]
-    ins_prev = se.phi_inputs[(phi_prev[2], phi_prev[3])]
-    back_idx = [v for p, v in ins_idx.items() if v != idx_root]
-    back_prev = [v for p, v in ins_prev.items() if v != prev_root]
-    init_ok = any(v == idx_root for v in ins_idx.values()) and any(v == prev_root for v in ins_prev.values())
+    back_idx = [v for p, v in ins_idx.items() if p in loop]
+    back_prev = [v for p, v in ins_prev.items() if p in loop]
     if len(out_terms) != 1 or len(back_idx) != 1 or len(back_prev) != 1 or wb is None:
         rep.violation("step", fn, "shape", "per-byte step is not one store to the byte, one index update, one previous-value update (%d/%d/%d)" % (len(out_terms), len(back_idx), len(back_prev)), body.loc())
         return
     out = arith.norm(out_terms[0], env)
-    nidx = arith.norm(back_idx[0], env)
+    nidx = _select(se, back_idx[0], env)
     nprev = arith.norm(back_prev[0], env)
     kb = ("idx", S("key"), S("idx"))
     if direction == "enc":
@@ -89,13 +157,29 @@ def step_rule(ctx, rep, fn, direction, keylen):
     else:
         want_out = xor(("wsub", S("in"), S("prev")), kb)
         want_prev = S("in")
-    want_idx = ("rem", ("add", S("idx"), I(1)), I(keylen))
+    nx = ("add", S("idx"), I(1))
+    want_idx = ("rem", nx, I(keylen))
+    idx_ok = nidx == want_idx
+    idx_how = "idx' = %s" % arith.show(nidx)
+    if not idx_ok and nidx in (("ite", ("Eq", nx, I(keylen)), I(0), nx), ("ite", ("Ne", nx, I(keylen)), nx, I(0)), ("ite", ("Ge", nx, I(keylen)), I(0), nx), ("ite", ("Lt", nx, I(keylen)), nx, I(0))):
+        # compare-and-reset equals (idx + 1) % K on idx < K; the key lookup key[idx] (bounds
+        # check against the K-byte key) on every iteration establishes idx < K before the update
+        idom = cfg.dominators(body)
+        bes = [e for e in cfg.back_edges(body) if e[1] == head]
+        guards = []
+        for bb, i in se.term_info.items():
+            if i.get("k") == "assert" and body.blocks[bb]["term"].get("msg") == "BoundsCheck" and bb in loop:
+                ln, ix = [arith.norm(x, env) for x in i["msg_ops"]]
+                if ln == I(keylen) and ix == S("idx") and all(cfg.dominates(idom, bb, t_) for t_, h_ in bes):
+                    guards.append(bb)
+        idx_ok = bool(guards)
+        idx_how = "idx' = idx + 1, reset to 0 at %d; idx < %d by the key lookup's bounds check in every iteration" % (keylen, keylen)
     rep.check(out == want_out, "step", fn, "output-byte", "out = %s" % arith.show(out), "output byte is %s, expected %s" % (arith.show(out), arith.show(want_out)), body.loc(writes[0][0][0]))
-    rep.check(nidx == want_idx, "step", fn, "index-update", "idx' = %s" % arith.show(nidx), "index update is %s, expected %s" % (arith.show(nidx), arith.show(want_idx)), body.loc())
+    rep.check(idx_ok, "step", fn, "index-update", idx_how, "index update is %s, expected %s" % (arith.show(nidx), arith.show(want_idx)), body.loc())
     rep.check(nprev == want_prev, "step", fn, "previous-update", "prev' = %s" % arith.show(nprev), "previous-value update is %s, expected %s" % (arith.show(nprev), arith.show(want_prev)), body.loc())
     # state discipline inside the function: at exit the state is exactly the loop-carried value
     eff = se.param_effects()
-    ok_state = eff.get(3) == phi_idx and eff.get(4) == phi_prev and len(ins_idx) == 2 and len(ins_prev) == 2 and init_ok
+    ok_state = eff.get(3) == phi_idx and eff.get(4) == phi_prev and len(ins_idx) == 2 and len(ins_prev) == 2
     rep.check(ok_state, "state-discipline", fn, "only-the-step-writes", "index/previous value are written by the per-byte step only (empty input leaves them untouched)", "index / previous value are also written outside the per-byte step (e.g. on empty or long input): idx=%s prev=%s" % (show(eff.get(3), maxdepth=2), show(eff.get(4), maxdepth=2)), body.loc())
     # every iteration performs the three stores (they dominate the back edge)
     idom = cfg.dominators(body)
